@@ -240,7 +240,10 @@ pub fn into_tokens(c: char, it: &mut Peekable<Chars>, state: &mut State) -> LexR
                             .iter()
                             .map(|lex| Lex::new(lex.pos.offset(offset).start, lex.token.clone()))
                             .collect()),
-                        Err(err) => Err(err),
+                        Err(err) => Err(LexErr {
+                            pos: err.pos.offset(offset),
+                            ..err
+                        }),
                     })
                     .collect::<Result<_, _>>()?;
 
